@@ -119,7 +119,11 @@ func genScript(rng *rand.Rand, jg *JGen, id string, more bool) *CallScript {
 		switch k := rng.Intn(10); {
 		case k < 4:
 			// continues reply (refused when the call did not set more)
-			cs.Steps = append(cs.Steps, Step{Op: "reply", Cont: true, NoPar: rng.Intn(6) == 0})
+			st := Step{Op: "reply", Cont: true, NoPar: rng.Intn(6) == 0}
+			if jg.Timed && rng.Intn(12) == 0 {
+				st.RawKind = []string{"empty", "nil", "nilptr", "invalid"}[rng.Intn(4)]
+			}
+			cs.Steps = append(cs.Steps, st)
 		case k < 5:
 			cs.Steps = append(cs.Steps, Step{Op: "yield", N: 1 + rng.Intn(6)})
 		case k < 6:
@@ -376,7 +380,7 @@ func c01RoundOpt(r *fw.Run, g *Rig, prop string, cc *c01Case, exact bool, barrie
 
 func runC01(r *fw.Run) {
 	rng := rand.New(rand.NewSource(r.Seed*1000003 + 1))
-	jg := &JGen{R: rng}
+	jg := &JGen{R: rng, Timed: true}
 	type cfg struct {
 		tr     string
 		listen bool
@@ -469,6 +473,27 @@ func runC01(r *fw.Run) {
 			r.Count("rounds_with_a_stalled_reader", 1)
 			r.Case(fw.Hash("stall", fmt.Sprint(ci, k)), true)
 		}
+		// handlers that reply under a derived context with a deadline of its own (400 ms), are still at work when that
+		// deadline has passed, and reply again under their plain context: what an earlier reply's context armed must not
+		// outlive that reply
+		for k := 0; k < r.Pick(3, 12) && !g.tainted && r.ViolationCount() <= 12; k++ {
+			cc := &c01Case{Transport: cf.tr, UseListen: cf.listen, Ifaces: c01Ifaces}
+			for j := 0; j < 8; j++ {
+				tagN++
+				cs := genConnScript(rng, jg, fmt.Sprintf("c%d", tagN), 3, false)
+				sc := &CallScript{ID: fmt.Sprintf("t%d", tagN), Steps: []Step{{Op: "reply", Cont: true, TO: 400}, {Op: "sleep", N: 450}, {Op: "reply", Cont: j%2 == 0}}}
+				if j%2 == 0 {
+					sc.Steps = append(sc.Steps, Step{Op: "error", Name: "org.example.script.Failed", TO: 400}, Step{Op: "sleep", N: 450})
+				}
+				cs.Calls = append(cs.Calls, GenCall{Method: "org.example.script.M", Flags: "m", Script: sc}, GenCall{Method: "org.varlink.service.GetInfo"})
+				cc.Conns = append(cc.Conns, cs)
+			}
+			r.Journal(0, cc)
+			c01Round(r, g, "C01", cc, true)
+			r.Done(0)
+			r.Count("rounds_with_replies_under_expiring_contexts", 1)
+			r.Case(fw.Hash("timed", fmt.Sprint(ci, k)), true)
+		}
 		// replies (and the calls that script them) of every length in a window around powers of two: a frame is
 		// complete after its NUL whatever its size, and the next reply is a frame of its own
 		{
@@ -550,7 +575,7 @@ func replayRound(r *fw.Run, raw json.RawMessage, prop string) {
 func init() {
 	fw.Register(&fw.Engine{
 		ID: "C01", Level: "exploration",
-		Rule: "a case = one connection script: 1..6 calls (targets: 3 registered scripted interfaces, unknown interfaces, methods without interface part, GetInfo, GetInterfaceDescription good/unknown/missing/ill-typed, unknown org.varlink.service methods; flags: every subset of more/oneway/upgrade plus explicit false/null spellings), each scripted call carrying its own handler script (0..5 steps of continues-reply / final reply / error reply with valid, dot-less and reserved names / the four built-in error helpers / yields, then a final reply, an error reply, nothing, or a handler failure), sent under one of 5 segmentations (one write, one byte per write, random cuts with pauses, one write per frame, cuts around 4096/8192). Rounds run 1..N such connections concurrently against one real Service on a socket (N<=8 quick, <=32 thorough). Oracle: the sequential model of DESIGN A.2 per connection - reply frames equal one for one and in order (number-exact JSON), EOF where predicted, handler log (target, flags, result of every reply attempt, end) equal, at most one handler per connection at any time, no handler event for an unknown peer, active-connection counter back to 0. non-trivial = >= 2 calls, or a flag, or > 1 handler step; distinct by hash of the call list and segmentation. Also: now and then a connection with up to 700 calls; frames without a method member; rounds in which 150 (thorough 400) connections are all established before the first byte is sent, two thirds of them idle and held open; rounds in which one client stops reading in the middle of a 3 MiB reply (its handler sits in a blocked write) while the others, started once that handler has been entered, must be served as usual. A connection left without bytes and without EOF for 40 s while the barrier probe made after the round is answered is a violation (stall). Every reply length in a 49-byte window below each of 4096, 8192, 32768, 65536, 131072 (thorough: 512 .. 2 MiB, 15 centres), plain and as continues+final pair, each followed by further calls on the same connection.",
+		Rule: "a case = one connection script: 1..6 calls (targets: 3 registered scripted interfaces, unknown interfaces, methods without interface part, GetInfo, GetInterfaceDescription good/unknown/missing/ill-typed, unknown org.varlink.service methods; flags: every subset of more/oneway/upgrade plus explicit false/null spellings), each scripted call carrying its own handler script (0..5 steps of continues-reply / final reply / error reply with valid, dot-less and reserved names / the four built-in error helpers / yields, then a final reply, an error reply, nothing, or a handler failure), sent under one of 5 segmentations (one write, one byte per write, random cuts with pauses, one write per frame, cuts around 4096/8192). Rounds run 1..N such connections concurrently against one real Service on a socket (N<=8 quick, <=32 thorough). Oracle: the sequential model of DESIGN A.2 per connection - reply frames equal one for one and in order (number-exact JSON), EOF where predicted, handler log (target, flags, result of every reply attempt, end) equal, at most one handler per connection at any time, no handler event for an unknown peer, active-connection counter back to 0. non-trivial = >= 2 calls, or a flag, or > 1 handler step; distinct by hash of the call list and segmentation. Also: now and then a connection with up to 700 calls; frames without a method member; rounds in which 150 (thorough 400) connections are all established before the first byte is sent, two thirds of them idle and held open; rounds in which one client stops reading in the middle of a 3 MiB reply (its handler sits in a blocked write) while the others, started once that handler has been entered, must be served as usual. A connection left without bytes and without EOF for 40 s while the barrier probe made after the round is answered is a violation (stall). Every reply length in a 49-byte window below each of 4096, 8192, 32768, 65536, 131072 (thorough: 512 .. 2 MiB, 15 centres), plain and as continues+final pair, each followed by further calls on the same connection. Handlers that reply under a derived context with a 400 ms deadline, keep working past it and reply again; replies whose value is a nil or unencodable raw JSON value.",
 		Assumptions: []string{"connections that the service ends while pipelined calls are unread are run on unix sockets only (TCP may discard already sent replies on reset)", "handler events are attributed by the peer address the service reports (clients bind unique local addresses)"},
 		Run:         runC01, Replay: replayC01, CrashIsViolation: true, MinEvals: 100,
 		QuickTimeout: 10 * time.Minute, ThoroughTimeout: 40 * time.Minute,
